@@ -4,6 +4,7 @@ import copy
 from .common import POLICIES
 
 SIGKILL, SIGTERM, SIGSEGV, SIGUSR1, SIGHUP, SIGQUIT, SIGABRT, SIGINT, SIGUSR2, SIGALRM = 9, 15, 11, 10, 1, 3, 6, 2, 12, 14
+EX_RECYCLE = 155
 
 
 class Ctx:
@@ -16,6 +17,7 @@ class Ctx:
         return self.n
 
 
+# ---------------------------------------------------------------------- task programs
 def prog_ok(rng, maxticks=4, sleep=None):
     p = []
     t = rng.randint(0, maxticks)
@@ -31,20 +33,27 @@ def prog_ok(rng, maxticks=4, sleep=None):
     return p
 
 
-def prog_raise(rng, base_only=False):
-    exc = rng.choice(['ValueError', 'KeyError', 'TaskError', 'RuntimeError'] if base_only is False and rng.random() < 0.7
-                     else ['TaskBaseError', 'BaseException', 'KeyboardInterrupt'])
+def prog_raise(rng, deep=False):
+    if rng.random() < 0.7:
+        exc = rng.choice(['ValueError', 'KeyError', 'TaskError', 'RuntimeError'])
+    else:
+        exc = rng.choice(['TaskBaseError', 'BaseException', 'KeyboardInterrupt'])
     p = []
     if rng.random() < 0.5:
         p.append(['tick', rng.randint(1, 3)])
-    if rng.random() < 0.25:
+    r = rng.random()
+    if deep and r < 0.5:
+        p.append(['recurse', rng.choice([1, 5, 100, 123, 124, 125, 126, 127, 130, 400, 700, 1500]), exc])
+    elif r < 0.25:
         p.append(['recurse', rng.choice([1, 5, 30, 130, 400]), exc])
+    elif r < 0.35:
+        p.append(['try', [['raise', 'ValueError']], [['tick', 2], ['raise', exc]]])
     else:
         p.append(['raise', exc])
     return p
 
 
-def prog_die(rng, sigs=None):
+def prog_die(rng, sigs=None, in_except=False):
     """Death (or catchable signal) at a chosen tick inside the task."""
     p = []
     before = rng.randint(0, 3)
@@ -54,23 +63,27 @@ def prog_die(rng, sigs=None):
         p.append(['sleep', rng.choice([0.05, 0.5])])
     r = rng.random()
     if r < 0.6:
-        p.append(['die', rng.choice(sigs or [SIGKILL, SIGKILL, SIGSEGV, SIGTERM, SIGABRT, SIGHUP, SIGQUIT, SIGINT])])
+        d = ['die', rng.choice(sigs or [SIGKILL, SIGKILL, SIGSEGV, SIGTERM, SIGABRT, SIGHUP, SIGQUIT])]
     elif r < 0.85:
-        p.append(['os_exit', rng.choice([0, 1, 2, 70, 155, 255])])
+        d = ['os_exit', rng.choice([0, 1, 2, 70, 155, 255])]
     else:
-        p.append(['sys_exit', rng.choice([0, 1, 3])])
+        d = ['os_exit', rng.choice([3, 15])]
+    if in_except:
+        p.append(['try', [['raise', 'ValueError']], [['tick', 1], d, ['tick', 2], ['ret', 2]]])
+    else:
+        p.append(d)
     p.append(['tick', 2])
     p.append(['ret', 1])
     return p
 
 
-def prog_long(rng, dur):
+def prog_long(rng, dur, ticks=True):
     """A job that runs about `dur` simulated seconds in several sleeps (so that signals can land)."""
     p = []
     n = rng.randint(1, 4)
     for _ in range(n):
         p.append(['sleep', round(dur / n, 3)])
-        if rng.random() < 0.5:
+        if ticks and rng.random() < 0.5:
             p.append(['tick', 1])
     p.append(['ret', rng.randint(0, 999)])
     return p
@@ -91,21 +104,26 @@ def base_case(rng, prop):
 
 
 def add_applies(rng, c, ops, n, mk=None, opts=None):
+    out = []
     for _ in range(n):
         uid = c.uid()
         prog = (mk or (lambda: prog_ok(rng)))()
         ops.append(['apply', uid, prog, dict(opts or {})])
+        out.append(uid)
         if rng.random() < 0.2:
             ops.append(['sleep', rng.choice([0.01, 0.2, 1.0])])
+    return out
 
 
-def add_map(rng, c, ops, kind=None, n=None, fail=0.0, chunks=None):
+def add_map(rng, c, ops, kind=None, n=None, fail=0.0, chunks=None, mkitem=None):
     kind = kind or rng.choice(['map', 'map', 'starmap', 'imap', 'imap_unordered'])
     n = rng.choice([0, 1, 2, 3, 5, 7, 8, 12, 24]) if n is None else n
     items = []
     for _ in range(n):
         iu = c.uid()
-        if rng.random() < fail:
+        if mkitem is not None:
+            items.append([iu, mkitem()])
+        elif rng.random() < fail:
             items.append([iu, prog_raise(rng)])
         else:
             items.append([iu, prog_ok(rng, maxticks=2, sleep=rng.choice([0, 0, 0.05, 0.3]))])
@@ -118,43 +136,6 @@ def add_map(rng, c, ops, kind=None, n=None, fail=0.0, chunks=None):
 
 
 # ---------------------------------------------------------------------- profiles
-def gen_C02(rng, tier):
-    c = Ctx(rng)
-    case = base_case(rng, 'C02')
-    case['pool']['processes'] = rng.randint(1, 4)
-    ops = case['users'][0]
-    for _ in range(rng.randint(1, 3)):
-        r = rng.random()
-        if r < 0.75:
-            add_map(rng, c, ops, fail=rng.choice([0, 0, 0.15, 0.4]))
-        else:
-            add_applies(rng, c, ops, rng.randint(1, 3),
-                        mk=lambda: prog_raise(rng) if rng.random() < 0.4 else prog_ok(rng))
-    return case
-
-
-def gen_C07(rng, tier):
-    c = Ctx(rng)
-    case = base_case(rng, 'C07')
-    pc = case['pool']
-    pc['processes'] = rng.randint(1, 4)
-    pc['maxtasksperchild'] = rng.choice([None, None, 1, 2, 3, 5])
-    pc['threads'] = rng.random() < 0.85
-    ops = case['users'][0]
-    for _ in range(rng.randint(1, 4)):
-        if rng.random() < 0.5:
-            add_applies(rng, c, ops, rng.randint(1, 4))
-        elif pc['threads']:
-            add_map(rng, c, ops)
-    ops.append(['sleep', rng.choice([0, 0, 0.01, 0.3, 1.0, 3.0])])
-    ops.append(['close'])
-    if rng.random() < 0.3:
-        ops.append(['apply', c.uid(), prog_ok(rng), {'after_close': True}])
-    ops.append(['join'])
-    case['epilogue'] = 'after_join'
-    return case
-
-
 def gen_C01(rng, tier):
     c = Ctx(rng)
     case = base_case(rng, 'C01')
@@ -192,7 +173,329 @@ def gen_C01(rng, tier):
     return case
 
 
-PROFILES = {'C01': gen_C01, 'C02': gen_C02, 'C07': gen_C07}
+def gen_C02(rng, tier):
+    c = Ctx(rng)
+    case = base_case(rng, 'C02')
+    case['pool']['processes'] = rng.randint(1, 4)
+    ops = case['users'][0]
+    for _ in range(rng.randint(1, 3)):
+        r = rng.random()
+        if r < 0.75:
+            add_map(rng, c, ops, fail=rng.choice([0, 0, 0.15, 0.4]))
+        else:
+            add_applies(rng, c, ops, rng.randint(1, 3),
+                        mk=lambda: prog_raise(rng) if rng.random() < 0.4 else prog_ok(rng))
+    return case
+
+
+def gen_C03(rng, tier):
+    c = Ctx(rng)
+    case = base_case(rng, 'C03')
+    pc = case['pool']
+    pc['processes'] = rng.randint(1, 3)
+    pc['maxtasksperchild'] = rng.choice([None, 1, 2, 3, 5])
+    pc['synack'] = rng.random() < 0.5
+    ops = case['users'][0]
+    for _ in range(rng.randint(2, 7)):
+        r = rng.random()
+        if r < 0.5:
+            uids = add_applies(rng, c, ops, 1)
+        elif r < 0.7:
+            uids = add_applies(rng, c, ops, 1, mk=lambda: prog_raise(rng))
+        elif r < 0.8:
+            uids = add_applies(rng, c, ops, 1, mk=lambda: [['unpicklable']])
+        elif not pc['synack']:
+            add_map(rng, c, ops, n=rng.choice([1, 2, 4]), fail=rng.choice([0, 0.3]))
+            uids = []
+        else:
+            uids = add_applies(rng, c, ops, 1)
+        if pc['synack'] and uids and rng.random() < 0.4:
+            ops.append(['cancel', uids[0]])
+    return case
+
+
+def gen_C04(rng, tier):
+    c = Ctx(rng)
+    case = base_case(rng, 'C04')
+    pc = case['pool']
+    pc['processes'] = rng.randint(1, 4)
+    pc['lost_worker_timeout'] = rng.choice([1.0, 2.0, 5.0, 10.0])
+    pc['maxtasksperchild'] = rng.choice([None, None, None, 2, 4])
+    ops = case['users'][0]
+    ndie = 0
+    for _ in range(rng.randint(1, 5)):
+        r = rng.random()
+        if r < 0.35 or ndie >= 3:
+            add_applies(rng, c, ops, 1, mk=lambda: prog_ok(rng, sleep=rng.choice([0, 0.3, 1.2, 3.0])))
+        elif r < 0.65:
+            ndie += 1
+            add_applies(rng, c, ops, 1, mk=lambda: prog_die(rng, in_except=rng.random() < 0.2))
+        elif r < 0.8:
+            ndie += 1
+            kind = rng.choice(['map', 'starmap', 'imap', 'imap_unordered'])
+            n = rng.choice([1, 2, 3, 5])
+            dpos = rng.randrange(n)
+            st = {'i': 0}
+
+            def mk():
+                i = st['i']
+                st['i'] += 1
+                return prog_die(rng) if i == dpos else prog_ok(rng, maxticks=2, sleep=rng.choice([0, 0.05, 0.3]))
+            add_map(rng, c, ops, kind=kind, n=n, mkitem=mk, chunks=rng.choice([1, 1, 2, None]))
+        else:
+            add_map(rng, c, ops, n=rng.choice([2, 4, 8]))
+    if rng.random() < 0.3:
+        u2 = []
+        add_applies(rng, c, u2, rng.randint(1, 2))
+        case['users'].append(u2)
+    return case
+
+
+def gen_C05(rng, tier):
+    c = Ctx(rng)
+    case = base_case(rng, 'C05')
+    pc = case['pool']
+    pc['processes'] = rng.choice([1, 1, 2, 3, 4])
+    pc['group_leaders'] = rng.random() < 0.25
+    pool_t = rng.choice([None, 1.0, 2.0, 3.5])
+    pc['timeout'] = pool_t
+    pc['enable_timeouts'] = True
+    pc['lost_worker_timeout'] = rng.choice([1.0, 10.0])
+    ops = case['users'][0]
+    for _ in range(rng.randint(1, 5)):
+        r = rng.random()
+        own = rng.choice([None, None, 0.6, 1.5, 3.0])
+        lim = own or pool_t
+        if r < 0.7:
+            if lim:
+                dur = max(0.05, lim + rng.choice([-2.0, -1.0, -0.3, -0.05, 0.05, 0.3, 1.0, 2.0, 5.0]))
+            else:
+                dur = rng.choice([0.1, 1.0, 4.0])
+            opts = {}
+            if own:
+                opts['timeout'] = own
+            add_applies(rng, c, ops, 1, mk=lambda: prog_long(rng, dur), opts=opts)
+        elif r < 0.85:
+            add_map(rng, c, ops, n=rng.choice([1, 3, 6]),
+                    mkitem=lambda: prog_ok(rng, maxticks=1, sleep=rng.choice([0.05, 0.5, 1.5])))
+        else:
+            add_applies(rng, c, ops, 1)
+    # jobs submitted after the limits fired must still be served
+    ops.append(['sleep', rng.choice([0.5, 3.0, 6.0])])
+    add_applies(rng, c, ops, rng.randint(1, 2), mk=lambda: prog_ok(rng, sleep=0.05))
+    return case
+
+
+def gen_C06(rng, tier):
+    c = Ctx(rng)
+    case = base_case(rng, 'C06')
+    pc = case['pool']
+    pc['processes'] = rng.randint(1, 3)
+    pool_s = rng.choice([None, 0.5, 1.5])
+    pool_h = rng.choice([None, None, 4.0, 8.0])
+    pc['soft_timeout'] = pool_s
+    pc['timeout'] = pool_h
+    pc['enable_timeouts'] = True
+    ops = case['users'][0]
+    for _ in range(rng.randint(1, 4)):
+        own_s = rng.choice([None, None, 0.4, 1.0, 2.5])
+        own_h = rng.choice([None, None, None, 3.0, 6.0])
+        soft = own_s or pool_s
+        dur = (soft or 1.0) + rng.choice([-0.3, 0.2, 1.2, 2.5, 4.5])
+        dur = max(0.05, dur)
+        body = prog_long(rng, dur)
+        if rng.random() < 0.4:
+            prog = [['catch_soft', body[:-1], 'caught'], body[-1]]
+        else:
+            prog = body
+        opts = {}
+        if own_s:
+            opts['soft_timeout'] = own_s
+        if own_h:
+            opts['timeout'] = own_h
+        add_applies(rng, c, ops, 1, mk=lambda: prog, opts=opts)
+        if rng.random() < 0.3:
+            add_applies(rng, c, ops, 1)
+    return case
+
+
+def gen_C07(rng, tier):
+    c = Ctx(rng)
+    case = base_case(rng, 'C07')
+    pc = case['pool']
+    pc['processes'] = rng.randint(1, 4)
+    pc['maxtasksperchild'] = rng.choice([None, None, 1, 2, 3, 5])
+    pc['threads'] = rng.random() < 0.85
+    ops = case['users'][0]
+    for _ in range(rng.randint(1, 4)):
+        if rng.random() < 0.5:
+            add_applies(rng, c, ops, rng.randint(1, 4))
+        elif pc['threads']:
+            add_map(rng, c, ops, fail=rng.choice([0, 0, 0.2]))
+    ops.append(['sleep', rng.choice([0, 0, 0.01, 0.3, 1.0, 3.0])])
+    ops.append(['close'])
+    if rng.random() < 0.3:
+        ops.append(['apply', c.uid(), prog_ok(rng), {'after_close': True}])
+    ops.append(['join'])
+    case['epilogue'] = 'after_join'
+    return case
+
+
+def gen_C08(rng, tier):
+    c = Ctx(rng)
+    case = base_case(rng, 'C08')
+    pc = case['pool']
+    pc['processes'] = rng.randint(1, 4)
+    pc['threads'] = rng.random() < 0.8
+    pc['maxtasksperchild'] = rng.choice([None, None, None, 3])
+    ops = case['users'][0]
+    uids = []
+    for _ in range(rng.randint(0, 5)):
+        r = rng.random()
+        if r < 0.6:
+            uids += add_applies(rng, c, ops, 1, mk=lambda: prog_long(rng, rng.choice([0.05, 0.5, 2.0, 6.0])))
+        elif r < 0.8:
+            uids += add_applies(rng, c, ops, 1, mk=lambda: [['try', [['raise', 'ValueError']],
+                                                             [['tick', 2], ['sleep', rng.choice([0.5, 3.0])],
+                                                              ['tick', 2], ['ret', 7]]]])
+        elif pc['threads']:
+            add_map(rng, c, ops, n=rng.choice([2, 5, 9]),
+                    mkitem=lambda: prog_ok(rng, maxticks=2, sleep=rng.choice([0.05, 0.5])))
+        else:
+            uids += add_applies(rng, c, ops, 1)
+    how = rng.choice(['terminate', 'terminate', 'terminate', 'terminate_twice', 'drop', 'with', 'terminate_job',
+                      'operator'])
+    ops.append(['sleep', rng.choice([0, 0, 0.01, 0.1, 0.5, 1.0, 2.5])])
+    if how == 'terminate_job' and uids:
+        u = rng.choice(uids)
+        ops.append(['wait_accepted', u, 5.0])
+        ops.append(['terminate_job', u])
+        ops.append(['sleep', rng.choice([0.1, 1.0])])
+        how = 'terminate'
+    if how == 'operator':
+        case['ext_faults'].append({'kind': 'signal', 'when': rng.choice(['busy', 'busy', 'idle', 'any']),
+                                   'sig': rng.choice([SIGTERM, SIGTERM, SIGHUP, SIGQUIT]),
+                                   'after': rng.choice([0.0, 0.2, 1.0])})
+        ops.append(['sleep', rng.choice([1.0, 3.0])])
+        how = 'terminate'
+    case['terminate_how'] = how
+    case['epilogue'] = 'terminate_only'
+    return case
+
+
+def gen_C09(rng, tier):
+    c = Ctx(rng)
+    case = base_case(rng, 'C09')
+    pc = case['pool']
+    pc['processes'] = rng.randint(1, 4)
+    pc['maxtasksperchild'] = rng.choice([None, 1, 2, 3, 5])
+    if rng.random() < 0.3:
+        pc['max_memory_per_child'] = 5000
+    pc['lost_worker_timeout'] = rng.choice([1.0, 2.0])
+    ops = case['users'][0]
+    for _ in range(rng.randint(2, 7)):
+        r = rng.random()
+        if r < 0.5:
+            def mk():
+                p = prog_ok(rng)
+                if pc.get('max_memory_per_child') and rng.random() < 0.4:
+                    p.insert(0, ['rss', 9000])
+                return p
+            add_applies(rng, c, ops, rng.randint(1, 3), mk=mk)
+        elif r < 0.7:
+            add_map(rng, c, ops, n=rng.choice([2, 5, 9, 14]))
+        elif r < 0.8:
+            ops.append(['grow', rng.randint(1, 2)])
+        elif r < 0.9:
+            ops.append(['shrink', 1])
+        else:
+            add_applies(rng, c, ops, 1, mk=lambda: prog_die(rng, sigs=[SIGKILL, SIGSEGV]))
+        if rng.random() < 0.3:
+            ops.append(['sleep', rng.choice([0.5, 1.0, 2.0])])
+    ops.append(['sleep', 2.0])
+    ops.append(['check_size'])
+    return case
+
+
+def gen_C10(rng, tier):
+    c = Ctx(rng)
+    case = base_case(rng, 'C10')
+    pc = case['pool']
+    pc['processes'] = rng.randint(1, 3)
+    pc['putlocks'] = True
+    pc['maxtasksperchild'] = rng.choice([None, None, 2])
+    pc['lost_worker_timeout'] = 1.0
+    if rng.random() < 0.3:
+        pc['timeout'] = rng.choice([1.0, 2.0])
+    for ui in range(rng.randint(1, 2)):
+        ops = [] if ui else case['users'][0]
+        for _ in range(rng.randint(2, 6)):
+            r = rng.random()
+            if r < 0.55:
+                add_applies(rng, c, ops, 1, mk=lambda: prog_ok(rng, sleep=rng.choice([0.05, 0.3, 1.2])))
+            elif r < 0.65:
+                add_applies(rng, c, ops, 1, opts={'bad_arg': True})
+            elif r < 0.8:
+                add_applies(rng, c, ops, 1, mk=lambda: prog_die(rng, sigs=[SIGKILL, SIGTERM]))
+            elif r < 0.9 and pc.get('timeout'):
+                add_applies(rng, c, ops, 1, mk=lambda: prog_long(rng, pc['timeout'] + rng.choice([0.3, 2.0])))
+            elif r < 0.95:
+                ops.append(['grow', 1])
+            else:
+                ops.append(['shrink', 1])
+        if ui:
+            case['users'].append(ops)
+    case['users'][0].append(['sleep', 3.0])
+    case['users'][0].append(['check_slots'])
+    return case
+
+
+def gen_C11(rng, tier):
+    c = Ctx(rng)
+    case = base_case(rng, 'C11')
+    pc = case['pool']
+    pc['processes'] = rng.randint(1, 3)
+    pc['max_restarts'] = rng.randint(1, 5)
+    pc['max_restart_freq'] = rng.choice([0.5, 1.0, 3.0])
+    pc['lost_worker_timeout'] = 1.0
+    pc['maxtasksperchild'] = rng.choice([None, None, 1, 2])
+    ops = case['users'][0]
+    ops.append(['sleep', rng.choice([0, 2.5])])       # inside / after the start-up burst phase
+    for _ in range(rng.randint(2, 9)):
+        r = rng.random()
+        if r < 0.55:
+            add_applies(rng, c, ops, 1, mk=lambda: [['os_exit', rng.choice([1, 2, 70])]] if rng.random() < 0.7
+                        else [['die', rng.choice([SIGKILL, SIGSEGV])]])
+        elif r < 0.7:
+            add_applies(rng, c, ops, 1, mk=lambda: [['os_exit', rng.choice([0, EX_RECYCLE])]])
+        else:
+            add_applies(rng, c, ops, 1, mk=lambda: prog_ok(rng, sleep=0.05))
+        ops.append(['sleep', rng.choice([0.0, 0.1, 0.3, 0.9, 1.7, 3.5])])
+    case['epilogue'] = 'terminate'
+    return case
+
+
+def gen_C12(rng, tier):
+    c = Ctx(rng)
+    case = base_case(rng, 'C12')
+    pc = case['pool']
+    pc['processes'] = rng.randint(1, 2)
+    ops = case['users'][0]
+    for _ in range(rng.randint(2, 5)):
+        r = rng.random()
+        if r < 0.5:
+            add_applies(rng, c, ops, 1, mk=lambda: prog_raise(rng, deep=True))
+        elif r < 0.75:
+            add_applies(rng, c, ops, 1, mk=lambda: [['tick', 1], [rng.choice(['unpicklable', 'nested_unpicklable'])]])
+        elif r < 0.9:
+            add_applies(rng, c, ops, 1)
+        else:
+            add_map(rng, c, ops, n=3, fail=0.5, kind=rng.choice(['map', 'imap']))
+    return case
+
+
+PROFILES = {'C01': gen_C01, 'C02': gen_C02, 'C03': gen_C03, 'C04': gen_C04, 'C05': gen_C05, 'C06': gen_C06,
+            'C07': gen_C07, 'C08': gen_C08, 'C09': gen_C09, 'C10': gen_C10, 'C11': gen_C11, 'C12': gen_C12}
 
 
 def generate(rng, tier, prop):
@@ -208,7 +511,7 @@ def _simplify_prog(prog):
         if ins[0] == 'tick' and ins[1] > 1:
             yield prog[:i] + [['tick', 1]] + prog[i + 1:]
         if ins[0] == 'sleep' and ins[1] > 0.05:
-            yield prog[:i] + [['sleep', 0.05]] + prog[i + 1:]
+            yield prog[:i] + [['sleep', round(ins[1] / 2, 3)]] + prog[i + 1:]
 
 
 def shrink(case):
@@ -250,12 +553,12 @@ def shrink(case):
         c = copy.deepcopy(case)
         c['pool']['processes'] -= 1
         yield c
-    for key in ('maxtasksperchild', 'timeout', 'soft_timeout', 'max_memory_per_child', 'max_restarts'):
+    for key in ('maxtasksperchild', 'timeout', 'soft_timeout', 'max_memory_per_child'):
         if pc.get(key) is not None:
             c = copy.deepcopy(case)
             c['pool'][key] = None
             yield c
-    for key, val in (('short_io', False), ('pipe_cap', 65536), ('sleep_jitter', 0.0)):
+    for key, val in (('short_io', False), ('pipe_cap', 65536), ('sleep_jitter', 0.0), ('policy', 'fifo')):
         if case.get(key) != val:
             c = copy.deepcopy(case)
             c[key] = val
